@@ -302,6 +302,49 @@ def rules_eq(run):
                               'compares attribute %s of one element with %s of the other: equal elements compare unequal (and unequal ones equal)' % (l.attr, rr.attr), c)
     run.floor(n, 9, r, '__eq__ methods in elements.py')
     run.floor(cmp_n, 9, r, 'attribute comparisons in __eq__ methods')
+    # shape of the verdict: for an operand of the class itself the result is the conjunction of equalities (and of the bases' __eq__); otherwise NotImplemented
+    n_eq = 0
+    for ci in run.prog.classes.values():
+        if ci.module.name not in ('sismic.model.elements', 'sismic.model.events'):
+            continue
+        m = ci.methods.get('__eq__')
+        if m is None:
+            continue
+        n_eq += 1
+        M = m.node
+        sp, op = q.param_names(M)[:2]
+
+        def leaf_ok(e, depth=0):
+            e = strip_cast(e)
+            if isinstance(e, ast.BoolOp):
+                return isinstance(e.op, ast.And) and all(leaf_ok(v, depth + 1) for v in e.values)
+            if isinstance(e, ast.Compare):
+                return len(e.ops) == 1 and isinstance(e.ops[0], ast.Eq)
+            if isinstance(e, ast.Call) and isinstance(e.func, ast.Attribute) and e.func.attr == '__eq__':
+                return True
+            if isinstance(e, ast.Name) and depth < 3:
+                o = q.local_origin(M, e)
+                return bool(o) and all(not (isinstance(x, ast.Name) and x.id == e.id) and leaf_ok(x, depth + 1) for x in o)
+            return False
+        for x in [x for x in q.walk(M, False) if isinstance(x, ast.Return) and x.value is not None]:
+            v = strip_cast(x.value)
+            at = guard_atoms(x)
+            inst = [a for a in at if a[1].replace(' ', '').startswith('isinstance(%s,' % op)]
+            pos = [a for a in inst if a[0] == 'truthy']
+            neg = [a for a in inst if a[0] == 'falsy']
+            refusing = (isinstance(v, ast.Name) and v.id == 'NotImplemented') or (isinstance(v, ast.Constant) and v.value is False)
+            marker = isinstance(v, ast.Call) and isinstance(v.func, ast.Name) and v.func.id == 'isinstance' and len(v.args) == 2 and q.unparse(v.args[0]) == op \
+                and q.unparse(v.args[1]) == ci.name
+            if marker and not at:
+                run.ok(r, m.short, 'a field-less mixin: equal to every operand of its own kind', x)
+            elif refusing:
+                run.check(bool(neg) and not pos, r, m.short, 'NotImplemented only for a foreign operand', 'equality is refused for an operand of the class itself (%s)' % at, x)
+            else:
+                own = any(ci.name in a[1] for a in pos)
+                run.check(own and not neg, r, m.short, 'comparison applies to operands of %s' % ci.name, 'the comparison runs for %s' % (at or 'every operand'), x)
+                run.check(leaf_ok(v), r, m.short, 'the verdict is a conjunction of equalities: ' + q.unparse(v)[:50].replace('\n', ' '),
+                          'the verdict is not the conjunction of the field equalities (a disjunction, a negation or an inequality makes unequal elements equal or equal ones unequal)', x)
+    run.floor(n_eq, 10, r, '__eq__ methods of model elements and events')
     # concrete classes combine the __eq__ of all their mixins
     for ci in run.prog.classes.values():
         if ci.module.name != 'sismic.model.elements' or ci.name.endswith('Mixin') or ci.name == 'Transition':
@@ -319,6 +362,20 @@ def rules_eq(run):
     run.check(attrs == ['action', 'event', 'guard', 'priority', 'source', 'target'] and any(
         isinstance(c.func, ast.Attribute) and c.func.attr == '__eq__' and dotted(c.func) == 'ContractMixin.__eq__' for c in q.calls(tr.node)), r, tr.short,
         'Transition equality covers source, target, event, guard, action, priority and the contract', 'covers %s' % attrs, tr.node)
+
+
+def attr_of_local(F, name):
+    """The model attribute a local list of conditions stands for (getattr(x, 'attr', []) / x.attr), when all its definitions agree."""
+    attrs = set()
+    for st, v in q.assigned_value(F, name):
+        v = strip_cast(v)
+        if isinstance(v, ast.Call) and isinstance(v.func, ast.Name) and v.func.id == 'getattr' and len(v.args) >= 2:
+            attrs.add(q.const_str(v.args[1]))
+        elif isinstance(v, ast.Attribute):
+            attrs.add(v.attr)
+        else:
+            attrs.add(None)
+    return attrs.pop() if len(attrs) == 1 else None
 
 
 def _table_eq(h, is_seq):
@@ -481,6 +538,90 @@ def check(run):
             for a in at:
                 if a[0] == 'truthy' and '.' in a[1] and a[1].split('.')[0] in (N['state'], N['transition'], N['sc_export'], N['statechart']) and vals and a[1].count('.') == 1:
                     run.check(a[1].split('.')[1] in vals, r2, 'exporter', "'%s' exported when its own attribute is set" % k, 'guarded by %s' % a[1], node)
+
+    # .. and never by the attribute being empty
+    owners = (N['state'], N['transition'], N['sc_export'], N['statechart'])
+    for (level, k), node in enodes.items():
+        if level in ('state', 'transition', 'statechart') and isinstance(node, ast.Assign):
+            vals = exp[level].get(k, set())
+            for a in guard_atoms(node):
+                if a[0] == 'falsy' and a[1].count('.') == 1 and a[1].split('.')[0] in owners and a[1].split('.')[1] in vals:
+                    run.fail(r2, 'exporter', "'%s' exported when its own attribute is set" % k, "'%s' is written only when %s is empty: the field is lost on export" % (k, a[1]), node)
+    # contracts: per level (state / transition) the three kinds are exported, under `any of the three lists is non-empty` (or always), and imported
+    KINDS = {'before': 'preconditions', 'after': 'postconditions', 'always': 'invariants'}
+    X = xi.node
+    tloops_ = [lp for lp in q.walk(X, False) if isinstance(lp, ast.For) and isinstance(lp.target, ast.Name) and lp.target.id == N['transition']]
+    seen_kinds = {'state': {}, 'transition': {}}
+    for n_ in q.walk(X):
+        if isinstance(n_, ast.Dict) and len(n_.keys) == 1 and q.const_str(n_.keys[0]) in KINDS:
+            lv_ = 'transition' if any(q.in_node(n_, tl) for tl in tloops_) else 'state'
+            seen_kinds[lv_].setdefault(q.const_str(n_.keys[0]), []).append(n_)
+    for lv_ in ('state', 'transition'):
+        run.check(set(seen_kinds[lv_]) == set(KINDS) and all(len(v) == 1 for v in seen_kinds[lv_].values()), r2, 'exporter', 'the %s contract exports before / after / always items, each once' % lv_,
+                  'the %s contract exports %s' % (lv_, {k: len(v) for k, v in seen_kinds[lv_].items()}), X)
+        for kind_, nodes_ in seen_kinds[lv_].items():
+            for n_ in nodes_:
+                par_ = getattr(n_, '_parent', None)
+                added = (isinstance(par_, ast.Call) and isinstance(par_.func, ast.Attribute) and par_.func.attr == 'append' and n_ in par_.args) or \
+                    (isinstance(par_, (ast.ListComp, ast.GeneratorExp)) and par_.elt is n_)
+                run.check(added, r2, 'exporter', "'%s' items are added to the exported %s contract" % (kind_, lv_), 'the item is not appended (%s)' % q.unparse(par_)[:50], n_)
+                lp_ = q.enclosing(n_, ast.For)
+                stop_ = lp_ if lp_ is not None and not any(lp_ is tl for tl in tloops_) else None
+                inner = [g for g in guards(n_, stop=stop_)] if stop_ is not None else []
+                run.check(not inner, r2, 'exporter', "every '%s' condition of the %s is exported" % (kind_, lv_), 'conditional on %s' % [q.unparse(g[0])[:40] for g in inner], n_)
+    var_of = {'state': N['data'], 'transition': N['tdata']}
+    obj_of = {'state': N['state'], 'transition': N['transition']}
+    for lv_ in ('state', 'transition'):
+        for v_, node in keys_written(X, var_of[lv_]).get('contract', []):
+            own_ = obj_of[lv_]
+
+            def classify_c(op, l, r_, e, own_=own_):
+                txt = l.replace(' ', '')
+                for kind_, attr_ in KINDS.items():
+                    if op == 'truthy' and txt in ("getattr(%s,'%s',[])" % (own_, attr_), '%s.%s' % (own_, attr_), "getattr(cast(StateMixin,%s),'%s',[])" % (own_, attr_)):
+                        return attr_.upper()
+                if op == 'truthy' and txt.startswith('isinstance(%s,' % own_):
+                    return 'KIND:' + txt
+                return None
+            stop_ = next((tl for tl in tloops_ if q.in_node(node, tl)), None)
+            gl = [(g[0], g[1], g[2]) for g in guards(node, stop=stop_)]
+            # locals holding the three lists (several definitions: not substituted by the normal form)
+            ba = q.BoolAbs(classify_c)
+            vs, sat = ba.table(gl)
+            cvars = [v for v in vs if not v.startswith('KIND:')]
+            names_ok = True
+            if any(v.startswith('?') for v in cvars):
+                # tests on locals: resolve each through the definitions that can reach it
+                res = {}
+                for v in cvars:
+                    if v.startswith('?'):
+                        nm = v[1:].split(' ')[0]
+                        attrs_ = {attr_of_local(X, nm)}
+                        res[v] = attrs_
+                names_ok = all(len(a_) == 1 and None not in a_ for a_ in res.values())
+                cvars = [next(iter(res[v])).upper() if v in res and names_ok else v for v in cvars]
+            if not gl or not cvars:
+                run.ok(r2, 'exporter', 'the %s contract is written unconditionally' % lv_, node)
+                continue
+            # the condition, over the three "list is non-empty" atoms, must be their disjunction
+            idx = {v: i for i, v in enumerate(vs)}
+            bad_ = False
+            for mask in range(1 << len(vs)):
+                val = {v: bool(mask >> i & 1) for i, v in enumerate(vs)}
+                if not all(val[v] for v in vs if v.startswith('KIND:')):
+                    continue
+                got = frozenset(v for v in vs if val[v]) in sat
+                want_ = any(val[v] for v in vs if not v.startswith('KIND:'))
+                bad_ = bad_ or got != want_
+            run.check(not bad_ and names_ok and sorted(set(cvars)) == sorted(a_.upper() for a_ in KINDS.values()), r2, 'exporter',
+                      'the %s contract is written when any of the three condition lists is non-empty' % lv_,
+                      'the %s contract is written under %s' % (lv_, [q.unparse(g[0])[:60] for g in gl]), node)
+    for lv_, F_ in (('state', si.node), ('transition', ti.node)):
+        got_ = {k: v[0] for (l_, k), v in inodes.items() if l_ == 'contract:' + lv_}
+        run.check(set(got_) == set(KINDS), r2, lv_ + ' importer', 'before / after / always items of a %s contract are all imported' % lv_, 'imports only %s' % sorted(got_), F_)
+        for k_, c_ in got_.items():
+            run.check(c_.func.value.attr == KINDS[k_] and c_.func.attr == 'append', r2, lv_ + ' importer', "'%s' items are appended to %s" % (k_, KINDS[k_]),
+                      "'%s' items go to %s.%s" % (k_, c_.func.value.attr, c_.func.attr), c_)
 
     r3 = run.rule('C11.3', 'kind maps are inverse: type strings <-> state classes, children key <-> composite class, symbolic priorities <-> constants; same strings in SCHEMA')
     imp_types = {}
